@@ -174,6 +174,9 @@ class Engine(object):
         is_gen = any(isinstance(n, (ast.Yield, ast.YieldFrom)) for n in ast.walk(fi.fdef))
         if is_gen:
             fr.yields = []
+            ghost = getattr(interp, 'generator_ghost', None)
+            if ghost and fi.key == self.cur_key:
+                fr.env.update(ghost)
         interp.depth += 1
         if interp.depth > 12:
             raise Undecided('call depth')
@@ -186,7 +189,10 @@ class Engine(object):
         finally:
             interp.depth -= 1
         if is_gen:
-            return VList(fr.yields)
+            out = VList(fr.yields)
+            if '$ycnt' in fr.env:
+                out.ghost = {k: fr.env[k] for k in ('$ycnt', '$yany', '$ylast')}
+            return out
         return ret
 
     def bound_method(self, g, name, fr, interp):
